@@ -134,7 +134,10 @@ static const jwk_item_t *get_item(int prov, int ki, int kalg, int pub)
 	if (!z->present)
 		return NULL;
 	if (!*slot) {
+		/* half of the slots carry a kid (the tokens' headers name the same kid, another one, an empty or a non-string one) */
+		vh_load_kid = ((ki + kalg + 16 + pub) & 1) ? "zoo-kid" : NULL;
 		*slot = vh_key_load(&z->k, !pub, kalg_text(kalg), &z->sets[prov]);
+		vh_load_kid = NULL;
 		if (!*slot)
 			vh_harness_fail("cannot load key %s", z->k.name);
 	}
@@ -156,7 +159,11 @@ static size_t garbage_len(const zkey_t *z, int alg)
 static const char *get_token(int ki, int h, int sk, int *refvalid)
 {
 	zkey_t *z = ki >= 0 ? &Z[ki] : &nokey;
-	char hdr[128], *h64, *p64, *msg, *tok = NULL;
+	char hdr[320], *h64, *p64, *msg, *tok = NULL;
+	/* further header members that name or carry a key: they must not change which key or algorithm judges the token */
+	static const char *DECO[8] = { "", ",\"kid\":\"other-kid\"", ",\"kid\":\"\"", ",\"kid\":\"zoo-kid\"", ",\"kid\":7", ",\"kid\":null,\"jwk\":{\"kty\":\"oct\",\"k\":\"\"}",
+		",\"jku\":\"https://keys.example/\",\"x5c\":[],\"x5t\":\"AAAA\"", ",\"kid\":\"zoo-kid \",\"cty\":\"JWT\"" };
+	const char *deco = DECO[(unsigned)((ki + 1) * 5 + h * 3 + sk) % 8];
 	static const char *payload = "{\"sub\":\"matrix\"}";
 	int alg = HV[h].intended;
 	unsigned char sig[1200];
@@ -165,8 +172,8 @@ static const char *get_token(int ki, int h, int sk, int *refvalid)
 
 	if (z->tok_made[h][sk]) { *refvalid = z->tok_refvalid[h][sk]; return z->tok[h][sk]; }
 	z->tok_made[h][sk] = 1;
-	if (HV[h].json) snprintf(hdr, sizeof(hdr), "{\"alg\":%s,\"typ\":\"JWT\"}", HV[h].json);
-	else snprintf(hdr, sizeof(hdr), "{\"typ\":\"JWT\"}");
+	if (HV[h].json) snprintf(hdr, sizeof(hdr), "{\"alg\":%s,\"typ\":\"JWT\"%s}", HV[h].json, deco);
+	else snprintf(hdr, sizeof(hdr), "{\"typ\":\"JWT\"%s}", deco);
 	h64 = vh_b64u_enc_dup(hdr, strlen(hdr));
 	p64 = vh_b64u_enc_dup(payload, strlen(payload));
 	msg = malloc(strlen(h64) + strlen(p64) + 2);
